@@ -52,7 +52,8 @@ def has_inh(x):
 
 
 class Grammar:
-    def __init__(self, flagset, forms=FORMS, wheres=("top", "nested"), kinds=None):
+    def __init__(self, flagset, forms=FORMS, wheres=("top", "nested"), kinds=None, modcost=False):
+        self.modcost = modcost
         self.flagset = tuple(flagset)
         self.forms = tuple(forms)
         self.wheres = tuple(wheres)
@@ -113,17 +114,18 @@ class Grammar:
                 out.append(("for", b))
         if self.on("call"):
             for form in self.forms:
-                for wd in range(0, w):
-                    wc = w - 1 - wd
-                    if form != "tag" and wc:
+                for where in self.wheres:
+                    if where == "nested" and not nested_ok:
                         continue
-                    for where in self.wheres:
-                        if where == "nested" and not nested_ok:
-                            continue
-                        dctx = (where == "top", True, inc_ok, False)
-                        for fl in self.flagset:
-                            if form == "cap" and "b" in fl:
-                                continue  # capture() of a def that returns its text instead of writing it: not documented
+                    dctx = (where == "top", True, inc_ok, False)
+                    for fl in self.flagset:
+                        if form == "cap" and "b" in fl:
+                            continue  # capture() of a def that returns its text instead of writing it: not documented
+                        base = 1 + (len(fl) + (where == "nested") + (form == "cap") if self.modcost else 0)
+                        for wd in range(0, w - base + 1):
+                            wc = w - base - wd
+                            if form != "tag" and wc:
+                                continue
                             for d in self.blocks(wd, dctx):
                                 if form == "tag":
                                     for c in self.blocks(wc, (False, False, inc_ok, False)):
